@@ -27,7 +27,7 @@ COMPONENTS = {
              'POSIX signals (not modelled)'],
 }
 ASSUMPTIONS = ['the primary port is the one bound for --port; with --unix-socket-path no primary TCP port exists',
-               'a run never asks for two OS-assigned ports at once, so that the primary one is identifiable from outside',
+               'a run asks for an OS-assigned primary port only when every other port is fixed, so that the primary one is identifiable from outside (several OS-assigned additional ports next to a fixed primary are exercised)',
                'child processes = the multiprocessing.Process objects started by setup(); daemon threads inside them are '
                'covered through their process']
 TIERS = {
@@ -79,7 +79,7 @@ def run_one(tape: Any, cfg: Dict[str, Any], forbid: FrozenSet[str] = frozenset()
         ports: List[int] = []
         eph_extra = False
         for i in range(nports):
-            if single and not primary_eph and not eph_extra and tape.coin(0.3, 'extra-eph'):
+            if single and not primary_eph and tape.coin(0.3, 'extra-eph'):      # (several OS-assigned extras are distinct endpoints)
                 ports.append(0)
                 eph_extra = True
             else:
